@@ -454,8 +454,21 @@ Definition is_container_n (n : node) : bool :=
   | DescriptionItem _ _ _ | DescriptionDetails => true
   | _ => false
   end.
+(* The paragraph that try_inserting_table_header_paragraph splits off in front of a table gets its end column from
+   its CONTENT (last line offset + bytes of the last preface line), so the spaces of a partly consumed tab count
+   there too: the same defect on a block (found by the thorough tier: >>a / >TAB` / f / >>- with tables) *)
+Fixpoint next_is_table (n : node) (l : list node) : bool :=
+  match l with
+  | a :: ((b :: _) as r) => (same_node a n && match nval b with Table _ => true | _ => false end) || next_is_table n r
+  | _ => false
+  end.
+Definition split_off_paragraph (f : fail) : bool :=
+  match nval (f_node f), f_anc f with
+  | Paragraph, p :: _ => next_is_table (f_node f) (nch p)
+  | _, _ => false
+  end.
 Definition cls_partial_tab (L : list srcline) (f : fail) : bool :=
-  is_inline (f_node f) && existsb is_container_n (f_anc f) &&
+  (is_inline (f_node f) || split_off_paragraph f) && existsb is_container_n (f_anc f) &&
   (match line_at L (sl (fsp f)) with Some l => tab_in_prefix (ln_body l) | None => false end ||
    match line_at L (el (fsp f)) with Some l => tab_in_prefix (ln_body l) | None => false end).
 
